@@ -138,6 +138,19 @@ pub fn strata_for(prop: &str, tier: Tier) -> Vec<Stratum> {
             let mut all = branch.clone();
             all.extend(callret.iter());
             push_g2(&mut v, &all, tier.pick(100_000, 3_000_000) as u32, 200);
+            // indirect branches through memory: every addressing shape, 32-bit addressing, FS/GS bases
+            for c in branch.iter().chain(callret.iter()).filter(|c| has_rm_operand(**c) || has_mem_only_operand(**c)) {
+                let mut left = tier.pick(20_000, 300_000) as u32;
+                while left > 0 {
+                    let n = left.min(100);
+                    v.push(Stratum::G1 { code: *c, n, mem: MemMode::Always });
+                    left -= n;
+                }
+            }
+            // one machine reused across many control transfers (hidden state: shadow call stack, trace, caches)
+            for _ in 0..tier.pick(300, 8_000) {
+                v.push(Stratum::Persist { n: 250 });
+            }
         }
         "C04" => {
             census_strata(&mut v, &[Family::Stack]);
@@ -149,6 +162,9 @@ pub fn strata_for(prop: &str, tier: Tier) -> Vec<Stratum> {
             push_g2(&mut v, &all, tier.pick(80_000, 2_000_000) as u32, 200);
             for _ in 0..tier.pick(600, 20000) {
                 v.push(Stratum::Program { n: 25 });
+            }
+            for _ in 0..tier.pick(200, 6_000) {
+                v.push(Stratum::Persist { n: 250 });
             }
         }
         "C05" => {
@@ -211,6 +227,9 @@ pub fn strata_for(prop: &str, tier: Tier) -> Vec<Stratum> {
                 v.push(Stratum::Raw { bytes: b.to_vec(), n: tier.pick(40, 1000) as u32, label });
             }
             push_g2(&mut v, &all, tier.pick(200_000, 6_000_000) as u32, 200);
+            for _ in 0..tier.pick(300, 8_000) {
+                v.push(Stratum::Persist { n: 250 });
+            }
         }
         _ => {}
     }
